@@ -629,3 +629,325 @@ class PGateMatrix(e1.Op):
 
 
 E3_WEIGHTS_C11 = {"p_init": 1.5, "p_gate": 12, "p_copy": 1.5, "p_add": 1, "p_dpt": 2.5, "p_gate_matrix": 3}
+
+
+# =====================================================================================================================
+# C12: environments as caches of contractions — exact expectation values, metrics, untruncated evolution
+# =====================================================================================================================
+
+def apply_site_op(task, arr, k, O, n):
+    """On-site matrix O (charge n) on the system leg of fermionic position k, applied to the amplitude array
+    (axes sys0, anc0, sys1, anc1, ...); Jordan-Wigner string on the system legs before k."""
+    sp = task.space
+    a = arr
+    if sp.sym.nsym and any(jw.flags_of(sp.sym, sp.fermionic)):
+        sgn = np.array([float(jw.sign(sp.sym, sp.fermionic, n, t)) for t in sp.site.state_t])
+        if not np.all(sgn == 1):
+            for j in range(k):
+                shape = [1] * a.ndim
+                shape[2 * j] = sp.d
+                a = a * sgn.reshape(shape)
+    return np.moveaxis(np.tensordot(np.asarray(O), a, axes=(1, 2 * k)), 0, 2 * k)
+
+
+def expectation(task, sh, sites, names):
+    """<psi| O0(s0) O1(s1) ... |psi> / <psi|psi> for the dense model state (written order: the last operator acts first)."""
+    sp = task.space
+    ket = sh.arr
+    for s, nm in reversed(list(zip(sites, names))):
+        ket = apply_site_op(task, ket, task.index[tuple(s)], sp.dense_ops[nm], tuple(sp.table[nm].n))
+    return complex(np.vdot(sh.arr, ket) / np.vdot(sh.arr, sh.arr))
+
+
+def total_charge_zero(sp, names):
+    if not sp.sym.nsym:
+        return True
+    tot = sp.sym.zero()
+    for nm in names:
+        tot = sp.sym.add(tot, tuple(sp.table[nm].n))
+    return tuple(tot) == tuple(sp.sym.zero())
+
+
+def spanning_tree(task, rng):
+    sites = [tuple(s) for s in task.sites]
+    seen = {rng.choice(sites)}
+    bonds = [(tuple(b.site0), tuple(b.site1)) for b in task.geometry.bonds()]
+    tree = []
+    while len(seen) < len(sites):
+        cand = [b for b in bonds if (b[0] in seen) != (b[1] in seen)]
+        b = rng.choice(cand)
+        tree.append(b)
+        seen.update(b)
+    return tree
+
+
+@e1.register
+class PPrepare(e1.Op):
+    """Random shallow circuit from a product state; the dense model state is read back with to_tensor()
+    (exactness of gate application is C11's business)."""
+    name = "p_prepare"
+    readback = True
+
+    def gen(self, g):
+        rng, t = g.rng, g.task
+        sp = t.space
+        purified = rng.random() < 0.25 and sp.d ** (2 * t.N) <= 4096
+        occ = [rng.randrange(sp.d) for _ in range(t.N)]
+        tree = bool(t.cfgspec.get("tree"))
+        bonds = spanning_tree(t, rng) if tree else [(tuple(b.site0), tuple(b.site1)) for b in t.geometry.bonds()]
+        rng.shuffle(bonds)
+        heavy = sp.family == "SpinfulFermions"
+        nb = rng.randint(1, len(bonds)) if bonds else 0
+        gates = []
+        for b in bonds[:nb]:
+            step = [round(rng.uniform(0.05, 0.6), 3), round(rng.uniform(-0.8, 0.8), 3) if rng.random() < 0.6 else 0.0]
+            kinds = ["hopping"] if heavy else (["nn_exp", "hopping"] if sp.family == "SpinlessFermions" else ["nn_exp", "Heisenberg"])
+            kind = rng.choice(kinds)
+            b = list(b) if rng.random() < 0.7 else list(b)[::-1]
+            a = {"kind": kind, "step": step, "sites": [list(b[0]), list(b[1])]}
+            if kind == "nn_exp":
+                a["H"] = random_two_site_H(g, sp)
+            elif kind == "hopping":
+                a["t"] = round(rng.uniform(-1.5, 1.5), 3) or 0.7
+                a["spin"] = rng.choice("ud") if heavy else ""
+            else:
+                a["J"] = round(rng.uniform(-1.5, 1.5), 3) or 0.6
+            gates.append(a)
+            if rng.random() < 0.3:
+                nm = rng.choice([k for k in sp.neutral() if np.allclose(sp.dense_ops[k], sp.dense_ops[k].conj().T)])
+                gates.append({"kind": "local_exp", "step": [round(rng.uniform(0.05, 0.5), 3), 0.0], "sites": [list(rng.choice(t.sites))],
+                              "H": [[[round(rng.uniform(-1, 1), 3) or 0.3, 0.0], [0], [nm]]]})
+        return {"op": "p_prepare", "in": [], "args": {"purified": purified, "occ": occ, "gates": gates}}
+
+    def run(self, task, rec, ins):
+        ar, sp = rec["args"], task.space
+        if ar["purified"]:
+            psi = fpeps.product_peps(task.geometry, sp.table["I"])
+        else:
+            psi = fpeps.product_peps(task.geometry, {s: sp.vec(ar["occ"][i]) for i, s in enumerate(task.sites)})
+        for a in ar["gates"]:
+            psi.apply_gate_(e1.OPS["p_gate"].build_gate(task, a))
+        return [psi]
+
+    def shadow(self, task, rec, sins, outs, ins=None):
+        ar, sp = rec["args"], task.space
+        anc_t = [list(sp.site.state_t) for _ in range(task.N)] if ar["purified"] else [[sp.site.state_t[ar["occ"][i]]] for i in range(task.N)]
+        return [PShadow(dense_peps(task, outs[0], ar["purified"]), ar["purified"], anc_t)]
+
+
+class EnvShadow:
+    def __init__(self, kind, psi_slot, state, exact=True):
+        self.kind, self.psi_slot, self.state, self.exact = kind, psi_slot, state, exact
+
+
+def is_env(v):
+    return isinstance(v, (fpeps.EnvBoundaryMPS, fpeps.EnvCTM, fpeps.EnvBP))
+
+
+BIG_SVD = {"D_total": 1 << 14, "tol": 1e-14}
+
+
+@e1.register
+class PEnv(e1.Op):
+    name = "p_env"
+    creates = True
+
+    def gen(self, g):
+        rng, t = g.rng, g.task
+        psi = pick_peps(g)
+        if psi is None:
+            return None
+        kinds = ["bmps", "ctm", "ctm"]
+        if t.cfgspec.get("tree"):
+            kinds += ["bp", "bp", "bp"]
+        kind = rng.choice(kinds)
+        args = {"kind": kind}
+        if kind == "bmps":
+            s = list("lrtb")
+            rng.shuffle(s)
+            args["setup"] = "".join(s) if rng.random() < 0.7 else rng.choice(["lr", "rl"])
+        elif kind == "ctm":
+            need = max(t.dims) - 1
+            args["init"] = rng.choice(["eye", "dl"])
+            args["expand"] = max(0, need - (1 if args["init"] == "dl" else 0)) + rng.choice([0, 0, 1])
+        else:
+            args["sweeps"] = t.N + 2
+            args["init"] = "eye"
+        return {"op": "p_env", "in": [psi], "args": args}
+
+    def run(self, task, rec, ins):
+        ar = rec["args"]
+        psi = ins[0]
+        if ar["kind"] == "bmps":
+            return [fpeps.EnvBoundaryMPS(psi, opts_svd=dict(BIG_SVD), setup=ar["setup"])]
+        if ar["kind"] == "ctm":
+            env = fpeps.EnvCTM(psi, init=ar["init"])
+            for _ in range(ar["expand"]):
+                env.expand_outward_()
+            return [env]
+        env = fpeps.EnvBP(psi, init=ar["init"])
+        info = env.iterate_(max_sweeps=ar["sweeps"], diff_tol=1e-13)
+        self._bp_info = info
+        return [env]
+
+    def shadow(self, task, rec, sins, outs, ins=None):
+        return [EnvShadow(rec["args"]["kind"], rec["in"][0], sins[0].copy())]
+
+
+def pick_env(g):
+    c = [s for s, v in g.task.slots.items() if is_env(v) and g.task.shadows.get(s) is not None]
+    return g.rng.choice(c[-3:]) if c else None
+
+
+def random_ops(g, sp, k, neutral_only=False):
+    names = sorted(sp.table)
+    for _ in range(60):
+        pick = [g.rng.choice(sp.neutral() if neutral_only else names) for _ in range(k)]
+        if all(p == "I" for p in pick) and g.rng.random() < 0.8:
+            continue
+        if total_charge_zero(sp, pick):
+            return pick
+    return ["I"] * k
+
+
+@e1.register
+class PMeasure(e1.Op):
+    """One measurement call on an environment object; every returned value vs the dense expectation value."""
+    name = "p_measure"
+
+    def gen(self, g):
+        rng, t = g.rng, g.task
+        sp = t.space
+        e = pick_env(g)
+        if e is None:
+            return None
+        esh = g.sh(e)
+        kind = esh.kind
+        env = g.val(e)
+        sites = [tuple(s) for s in t.sites]
+        bonds = [(tuple(b.site0), tuple(b.site1)) for b in t.geometry.bonds()]
+        if kind == "bmps":
+            fns = ["1site", "1site_all", "nsite", "nsite"]
+            if set("lrtb") <= set(env_setup(g, e)):
+                fns += ["nn_all", "2site"]
+            else:
+                fns += ["2site_v"]
+        elif kind == "ctm":
+            # measure_2x2 / measure_nsite_exact need a 2x2 window to exist (KeyError on 1xN chains: observation, outside the property's lattices)
+            fns = ["1site", "1site_all", "nn", "nn_all", "line", "nsite", "2site"] + (["2x2", "2x2", "nsite_exact", "nsite_exact"] if min(t.dims) >= 2 else [])
+        else:
+            fns = ["1site", "1site_all", "nn", "nn_all"]
+        if not bonds:
+            fns = [f for f in fns if f not in ("nn", "nn_all", "2x2")]
+        fn = rng.choice(fns)
+        args = {"fn": fn}
+        if fn in ("1site", "1site_all"):
+            args["ops"] = random_ops(g, sp, 1, neutral_only=True)
+            args["sites"] = [list(rng.choice(sites))]
+        elif fn in ("nn", "nn_all"):
+            args["ops"] = random_ops(g, sp, 2)
+            b = list(rng.choice(bonds))
+            if fn == "nn" and rng.random() < 0.5 and kind != "bmps":
+                b = b[::-1]
+            args["sites"] = [list(b[0]), list(b[1])]
+        elif fn in ("2site", "2site_v"):
+            args["ops"] = random_ops(g, sp, 2)
+            args["dirn"] = "v" if fn == "2site_v" else rng.choice("hv")
+            args["pairs"] = rng.choice(["corner <=", "corner <", "row <=", "<=", "<"])
+            args["sites"] = []
+        elif fn == "2x2":
+            x0, y0 = rng.randrange(t.dims[0] - 1), rng.randrange(t.dims[1] - 1)
+            win = [(x0, y0), (x0 + 1, y0), (x0, y0 + 1), (x0 + 1, y0 + 1)]
+            k = rng.randint(2, 4)
+            args["sites"] = [list(rng.choice(win)) for _ in range(k)]
+            if len({tuple(s) for s in args["sites"]}) == 1:
+                args["sites"][0] = list(next(w for w in win if list(w) != args["sites"][0]))
+            args["ops"] = random_ops(g, sp, k)
+        elif fn == "line":
+            if rng.random() < 0.5:
+                x = rng.randrange(t.dims[0])
+                line = [(x, y) for y in range(t.dims[1])]
+            else:
+                y = rng.randrange(t.dims[1])
+                line = [(x, y) for x in range(t.dims[0])]
+            k = rng.randint(1, min(4, len(line) + 1))
+            args["sites"] = [list(rng.choice(line)) for _ in range(k)]
+            args["ops"] = random_ops(g, sp, k)
+        else:  # nsite / nsite_exact
+            k = rng.randint(1, 4)
+            args["sites"] = [list(rng.choice(sites)) for _ in range(k)]
+            args["ops"] = random_ops(g, sp, k)
+        return {"op": "p_measure", "in": [e], "args": args}
+
+    def run(self, task, rec, ins):
+        ar, sp = rec["args"], task.space
+        env = ins[0]
+        T = sp.table
+        ops_ = [T[nm] for nm in ar["ops"]]
+        st = [tuple(s) for s in ar["sites"]]
+        fn = ar["fn"]
+        if fn == "1site":
+            return [("val", env.measure_1site(ops_[0], site=st[0]))]
+        if fn == "1site_all":
+            return [("sites", env.measure_1site(ops_[0]))]
+        if fn == "nn":
+            return [("val", env.measure_nn(ops_[0], ops_[1], bond=(st[0], st[1])))]
+        if fn == "nn_all":
+            if isinstance(env, fpeps.EnvBoundaryMPS):
+                return [("bonds", env.measure_nn(ops_[0], ops_[1]))]
+            return [("bonds", env.measure_nn(ops_[0], ops_[1]))]
+        if fn in ("2site", "2site_v"):
+            return [("pairs", env.measure_2site(ops_[0], ops_[1], pairs=ar["pairs"], dirn=ar["dirn"], opts_svd=dict(BIG_SVD)))]
+        f = {"2x2": "measure_2x2", "line": "measure_line", "nsite": "measure_nsite", "nsite_exact": "measure_nsite_exact"}[fn]
+        return [("val", getattr(env, f)(*ops_, sites=st))]
+
+    def shadow(self, task, rec, sins, outs, ins=None):
+        w = core.current_world()
+        if not getattr(w, "generating", False):
+            check_measure(task, rec, outs[0], sins[0], w)
+        return [None]
+
+
+def env_setup(g, slot):
+    for r in g.program:
+        if slot in r.get("out", []):
+            return r["args"].get("setup", "")
+    return ""
+
+
+def check_measure(task, rec, result, esh, world, prop="C12", tol=1e-8):
+    ar = rec["args"]
+    kind, val = result
+    sh = esh.state
+    names = ar["ops"]
+
+    def cmp(got, sites, what):
+        ref = expectation(task, sh, sites, names[:len(sites)])
+        if not np.isfinite(complex(got)) or abs(complex(got) - ref) > tol * max(1.0, abs(ref)):
+            raise V(prop, "expectation-value", "op %d %s(%s) on a %s environment: %s returned %r, dense state gives %r (difference %.3e)"
+                    % (rec["id"], ar["fn"], ",".join(names), esh.kind, what, complex(got), ref, abs(complex(got) - ref)), fn=ar["fn"], env=esh.kind)
+        world.stats["values_checked"] += 1
+        if all(nm == "I" for nm in names[:len(sites)]):
+            world.probes["identity_measured"] += 1
+    if kind == "val":
+        cmp(val, ar["sites"], "sites %s" % ar["sites"])
+    elif kind == "sites":
+        if len(val) != task.N:
+            raise V(prop, "coverage", "op %d measure_1site returned %d entries for %d sites" % (rec["id"], len(val), task.N))
+        for s, v in val.items():
+            cmp(v, [tuple(s)[:2]], "site %s" % (tuple(s),))
+    elif kind == "bonds":
+        nb = len(list(task.geometry.bonds()))
+        if len(val) != nb:
+            raise V(prop, "coverage", "op %d measure_nn returned %d entries for %d bonds" % (rec["id"], len(val), nb))
+        for b, v in val.items():
+            cmp(v, [tuple(b[0]), tuple(b[1])], "bond %s" % (tuple(map(tuple, b[:2])),))
+    else:
+        if not val and "=" in ar["pairs"]:
+            raise V(prop, "coverage", "op %d measure_2site returned no pairs" % rec["id"])
+        for (s0, s1), v in val.items():
+            cmp(v, [tuple(s0)[:2], tuple(s1)[:2]], "pair %s %s" % (tuple(s0), tuple(s1)))
+    world.stats["measure_%s_%s" % (esh.kind, ar["fn"])] += 1
+
+
+E3_WEIGHTS_C12 = {"p_prepare": 0.7, "p_env": 2, "p_measure": 10}
